@@ -240,10 +240,18 @@ WFlush3Op(r, cancel) ==
   /\ wpc[r] = "flush3o" /\ AtBase(r)
   /\ cancel => (HasFlushOp /\ impl[rq[r].tgt] = "called")
   /\ IF cancel
-       THEN RespEnter(r, rq[r].tgt, [rq EXCEPT ![rq[r].tgt].flush = TRUE])
-       ELSE UNCHANGED <<rq, stack, act>>
+       THEN /\ RespEnter(r, rq[r].tgt, [rq EXCEPT ![rq[r].tgt].flush = TRUE])
+            /\ impl' = [impl EXCEPT ![rq[r].tgt] = "cancelled"]   \* having cancelled it, the implementation does not answer it
+       ELSE UNCHANGED <<rq, stack, act, impl>>
   /\ wpc' = [wpc EXCEPT ![r] = "end"]
-  /\ UNCHANGED <<nreq, reqs, fidref, spc, scur, outq, wire, impl, fc, pool, nfc, cstate, cpc, fdir, sstop>>
+  /\ UNCHANGED <<nreq, reqs, fidref, spc, scur, outq, wire, fc, pool, nfc, cstate, cpc, fdir, sstop>>
+  /\ UNCHANGED ghosts
+
+(* the op call of a request the implementation has cancelled returns without answering *)
+ImplAbort(r) ==
+  /\ wpc[r] = "impl" /\ AtBase(r) /\ impl[r] = "cancelled"
+  /\ wpc' = [wpc EXCEPT ![r] = "end"]
+  /\ UNCHANGED <<nreq, rq, reqs, stack, act, fidref, spc, scur, outq, wire, impl, fc, pool, nfc, cstate, cpc, fdir, sstop>>
   /\ UNCHANGED ghosts
 
 RKind(k, out) == IF out = "err" THEN "Rerror" ELSE "R" \o k
@@ -480,7 +488,7 @@ Next ==
        \/ WStart(r) \/ WRet(r) \/ WDispatch(r) \/ WFlush2(r) \/ WFlush3Cancel(r)
        \/ \E c \in BOOLEAN : WFlush3Op(r, c)
        \/ \E o \in {"ok", "partial", "err"} : ImplRespond(r, o) \/ ImplLate(r, o)
-       \/ ImplReturn(r) \/ ImplExtra(r) \/ WEnd(r)
+       \/ ImplReturn(r) \/ ImplAbort(r) \/ ImplExtra(r) \/ WEnd(r)
   \/ \E g \in Threads, t \in ReqIds :
        RUnlink(g, t) \/ RPost(g, t) \/ REnq(g, t) \/ RNext(g, t)
   \/ SWrite \/ CRecv \/ ClientClose \/ SWriteClosed \/ CloseEnter \/ CloseDestroy
@@ -492,7 +500,7 @@ Spec == Init /\ [][Next]_vars
 CONSTANT Held
 SrvStep ==
   \/ \E r \in ReqIds : WStart(r) \/ WRet(r) \/ WDispatch(r) \/ WFlush2(r) \/ WFlush3Cancel(r)
-                       \/ WFlush3Op(r, FALSE) \/ WEnd(r)
+                       \/ WFlush3Op(r, FALSE) \/ WEnd(r) \/ ImplAbort(r)
   \/ \E g \in Threads, t \in ReqIds : RUnlink(g, t) \/ RPost(g, t) \/ REnq(g, t) \/ RNext(g, t)
   \/ SWrite \/ CRecv \/ SWriteClosed \/ CloseEnter \/ CloseDestroy
 ImplStep == \E r \in ReqIds \ Held : ImplRespond(r, "ok")
